@@ -49,14 +49,20 @@ SigOK(j, key, ledger, keyFam) ==
   /\ key \in DOMAIN keyFam /\ AlgFam(HdrAlg(j)) = keyFam[key]
 TimeOf(m, t0, t1) == TimeVerdict(m.tm.exp, m.tm.nbf, t0, t1)
 Claims(m) == UnpackTop(m.jwt.pl, DMapAll(m.discs))
-KBOK(m, aud, nonce, ledger, keyFam, jwks) ==
-  /\ m.kb # NoKB /\ m.kb.hdr # NONE /\ m.kb.pl # NONE /\ IsObj(m.kb.hdr) /\ IsObj(m.kb.pl)
-  /\ Has(m.jwt.pl, "cnf") /\ IsObj(m.jwt.pl.f["cnf"]) /\ Has(m.jwt.pl.f["cnf"], "jwk")
-  /\ LET hk == JwkKey(jwks, m.jwt.pl.f["cnf"].f["jwk"]) IN SigOK(m.kb, hk, ledger, keyFam)
-  /\ StrField(m.kb.hdr, "typ") = "kb+jwt"
-  /\ Has(m.kb.pl, "aud") /\ (m.kb.pl.f["aud"] = aud \/ (IsArr(m.kb.pl.f["aud"]) /\ aud \in SeqToSet(m.kb.pl.f["aud"].e)))
-  /\ Has(m.kb.pl, "nonce") /\ m.kb.pl.f["nonce"] = nonce
-  /\ Has(m.kb.pl, "sd_hash") /\ m.kb.pl.f["sd_hash"] = JStr(m.sdh)
+\* Each requirement of draft-07 8.3 step 5 that a key-bound presentation fails, by name (the empty set = acceptable).
+\* Named so that behaviours with exactly ONE flaw can be told apart from those where several coincide.
+KBFlaws(m, aud, nonce, ledger, keyFam, jwks) ==
+  IF m.kb = NoKB THEN {"absent"}
+  ELSE IF ~(m.kb.hdr # NONE /\ m.kb.pl # NONE /\ IsObj(m.kb.hdr) /\ IsObj(m.kb.pl)) THEN {"parse"}
+  ELSE LET cnfok == Has(m.jwt.pl, "cnf") /\ IsObj(m.jwt.pl.f["cnf"]) /\ Has(m.jwt.pl.f["cnf"], "jwk")
+           hk == IF cnfok THEN JwkKey(jwks, m.jwt.pl.f["cnf"].f["jwk"]) ELSE ""
+       IN (IF cnfok THEN {} ELSE {"cnf"})
+          \cup (IF cnfok /\ SigOK(m.kb, hk, ledger, keyFam) THEN {} ELSE {"sig"})
+          \cup (IF StrField(m.kb.hdr, "typ") = "kb+jwt" THEN {} ELSE {"typ"})
+          \cup (IF Has(m.kb.pl, "aud") /\ (m.kb.pl.f["aud"] = aud \/ (IsArr(m.kb.pl.f["aud"]) /\ aud \in SeqToSet(m.kb.pl.f["aud"].e))) THEN {} ELSE {"aud"})
+          \cup (IF Has(m.kb.pl, "nonce") /\ m.kb.pl.f["nonce"] = nonce THEN {} ELSE {"nonce"})
+          \cup (IF Has(m.kb.pl, "sd_hash") /\ m.kb.pl.f["sd_hash"] = JStr(m.sdh) THEN {} ELSE {"sdh"})
+KBOK(m, aud, nonce, ledger, keyFam, jwks) == KBFlaws(m, aud, nonce, ledger, keyFam, jwks) = {}
 
 \* The specified verifier.  aud / nonce are JStr(..) or NONE.  Result:
 \*   [v |-> "reject", why]           the draft / the property require rejection (stage `why`)
@@ -69,7 +75,7 @@ SpecVerify(m, rk, aud, nonce, t0, t1, ledger, keyFam, jwks) ==
   ELSE IF TimeOf(m, t0, t1) = "reject" THEN [v |-> "reject", why |-> "time"]
   ELSE LET c == Claims(m) IN
        IF c = ERR THEN [v |-> "reject", why |-> "unpack"]
-       ELSE IF aud # NONE /\ ~KBOK(m, aud, nonce, ledger, keyFam, jwks) THEN [v |-> "reject", why |-> "kb"]
+       ELSE IF aud # NONE /\ ~KBOK(m, aud, nonce, ledger, keyFam, jwks) THEN [v |-> "reject", why |-> "kb", flaws |-> KBFlaws(m, aud, nonce, ledger, keyFam, jwks)]
        ELSE [v |-> IF TimeOf(m, t0, t1) = "accept" THEN "ok" ELSE "free", claims |-> c]
 
 (***************************************************************************)
